@@ -33,23 +33,24 @@ def run(ctx):
     for p in mir.walk_function(anm):
         if p.outcome[0] != "return":
             continue
-        arm = None
-        gi = None
-        for i, e in enumerate(p.events):
-            if e.kind == "guard" and e.a == T("variantof", mrep):
-                arm, gi = e.b, i
-        if arm is None:
+        # which repeat modes can the firing mapping have on this path?  (a `match`, `matches!`, or several tests)
+        poss = kt.variant_set(p.events, mrep, ("Normal", "Disabled", "Special"))
+        if len(poss) == 3:
             ck.ob("C07-R1", ANM, "return-path-matches-on-repeat", False)
             continue
-        arms.add(arm)
-        if arm not in ("Disabled", "Special"):
+        arms |= poss
+        if "Normal" in poss:
+            if poss != {"Normal"}:
+                ck.ob("C07-R1", ANM, "return-path-separates-Normal-from-the-no-repeat-modes", False, detail=str(sorted(poss)))
             continue
-        after = p.events[gi + 1:]
-        before = p.events[:gi]
-        sweeps = [i for i, e in enumerate(after) if e.kind == "call" and e.a == SWEEP]
+        arm = "/".join(sorted(poss))
+        sweeps = [i for i, e in enumerate(p.events) if e.kind == "call" and e.a == SWEEP]
         ck.ob("C07-R1", ANM, "%s-arm:passes-release_all_action_keys" % arm, len(sweeps) >= 1,
-              detail=None if sweeps else "a path from the %s arm reaches return without the sweep" % arm)
-        # press loop before the switch: a loop over m.to on the path prefix
+              detail=None if sweeps else "a path on which the mapping's repeat mode is %s reaches return without the sweep" % arm)
+        if not sweeps:
+            continue
+        before = p.events[:sweeps[-1]]
+        # press loop before the sweep: a loop over m.to on the path prefix
         loops_before = [e for e in before if e.kind == "loop"]
         over_to = False
         for e in loops_before:
@@ -61,11 +62,10 @@ def run(ctx):
                         if isinstance(it, tuple) and it[0] == "iter" and it[1] == T("field", m, "to"):
                             over_to = True
         ck.ob("C07-R1", ANM, "%s-arm:press-loop-over-outputs-comes-first" % arm, over_to)
-        if sweeps:
-            tail = after[sweeps[-1] + 1:]
-            bad = [e for e in tail if (e.kind == "call" and (e.a in pressers or (method_name(e.a) == "push" and len(e.b) > 1 and kt.is_event_agg(e.b[1]) and e.b[1][2] == "Pressed"))) or e.kind == "loop"]
-            ck.ob("C07-R1", ANM, "%s-arm:nothing-can-press-after-the-sweep" % arm, not bad,
-                  detail=None if not bad else "after the sweep the path reaches %s" % (bad[0],))
+        tail = p.events[sweeps[-1] + 1:]
+        bad = [e for e in tail if (e.kind == "call" and (e.a in pressers or (method_name(e.a) == "push" and len(e.b) > 1 and kt.is_event_agg(e.b[1]) and e.b[1][2] == "Pressed"))) or e.kind == "loop"]
+        ck.ob("C07-R1", ANM, "%s-arm:nothing-can-press-after-the-sweep" % arm, not bad,
+              detail=None if not bad else "after the sweep the path reaches %s" % (bad[0],))
     ck.ob("C07-R1", ANM, "arms-present", arms >= {"Normal", "Disabled", "Special"}, detail=str(sorted(arms)))
 
     # ---- R2 sweep completeness
